@@ -6,7 +6,7 @@ under a 5.x and a 7.x version and the full fingerprints (kinds, nesting, values,
 free-floating content, positions) must be identical, and both must be the tree Syntax.tla prescribes."""
 import random
 
-from . import core, syntax, progs, inputs
+from . import core, syntax, progs, inputs, c01
 
 
 def run(tier):
@@ -17,6 +17,7 @@ def run(tier):
     both = {v["id"] for v in table["variants"] if v["fam"] == "both"}
     layouts = ["none", "random"] if tier == "quick" else ["none", "random", "crlf", "mix", "line"]
     ex = progs.expand_all(table, behs, core.seed(), layouts)
+    behs, ex = progs.drop_skipped(behs, ex)
     pairs = [("5.6", "7.4")] if tier == "quick" else [("5.6", "7.4"), ("5.0", "7.0"), ("5.4", "7.3"), ("5.3", "7.2")]
     tasks, metas = [], []
     for i, (b, e) in enumerate(zip(behs, ex)):
@@ -42,7 +43,9 @@ def run(tier):
             f7 = [f for f in (r7.get("fails") or [])]
             f = (f5 + f7 + [{}])[0]
             cls = "structure" if r5["sfp"] != r7["sfp"] else "tokens-or-positions"
-            check.violation({"class": "families-differ-" + cls, "kind": f.get("kind"), "detail": f.get("c"), "deviates": "5" if f5 else ("7" if f7 else "?")},
+            check.violation({"class": "families-differ-" + cls, "kind": f.get("kind"), "detail": f.get("c"), "deviates": "5" if f5 else ("7" if f7 else "?"),
+                             "family": "empty-heredoc-flex" if (f.get("kind") == "ScalarHeredoc" and
+                                                                  c01.family(tasks[k]["src"].encode("latin-1"), v7) == "empty-heredoc-flex") else "other"},
                             {"src": tasks[k]["src"], "versions": [v5, v7], "php5_vs_spec": f5[:3], "php7_vs_spec": f7[:3], "variants": used})
     # corpus snippets that are clean under both
     cs = [c["src"] for c in inputs.corpus()]
